@@ -24,6 +24,12 @@ lane() {
             if [ "$prop" = C14 ] && grep -qE "Send|Sync" $L/build.err; then echo -e "$id\t$prop\tVIOLATION(static)" >> $L/results.tsv; else echo -e "$id\t$prop\tBUILD-FAILED" >> $L/results.tsv; fi
             continue
         fi
+        if [ "${MODE:-quick}" = hitrate ] && [ "$prop" != C14 ]; then
+            # MODE=hitrate: number of failing generated cases of a whole quick run (no stop at the first)
+            out=$(cd $L/harness && timeout 1800 ./target/release/vh $prop hitrate 2>/dev/null | grep -E "^HITRATE" | sed 's/.*cases=//')
+            echo -e "$id\t$prop\tcases=$out" >> $L/results.tsv
+            continue
+        fi
         if [ "$prop" = C14 ]; then bin="./target/release/c14 quick"; else bin="./target/release/vh $prop quick"; fi
         out=$(cd $L/harness && VERIF_EVIDENCE_DIR=$L/evidence VERIF_REPLAY_DIR=$L/replays timeout 1800 $bin 2>/dev/null | grep -E "^(VIOLATION|SUMMARY)" | head -2 | tr '\n' ' ')
         case "$out" in
@@ -37,7 +43,7 @@ lane() {
 }
 for n in $(seq 0 $((LANES-1))); do lane $n & done
 wait
-if [ "$FILTER" = . ]; then OUT=/verif/seeded/sweep_results.tsv; else OUT=/tmp/sweep_partial.tsv; fi
+if [ "$FILTER" = . ] && [ "${MODE:-quick}" = quick ]; then OUT=/verif/seeded/sweep_results.tsv; elif [ "${MODE:-quick}" = hitrate ]; then OUT=/verif/seeded/hitrates.tsv; else OUT=/tmp/sweep_partial.tsv; fi
 cat $ROOT/*/results.tsv | sort > $OUT
 for n in $(seq 0 $((LANES-1))); do git -C /repo worktree remove --force $ROOT/$n/repo; done
 rm -rf $ROOT
